@@ -81,7 +81,7 @@ def run(ctx):
                 'erasure of start times, axis given as 0/"time"/1/"freq"; random two-level groupings; single-piece perturbations '
                 '(>= 1 sample, >= 1 channel, class, rate, chan_bw, off-axis start/labels, order). non-trivial = >= 2 pieces; '
                 'distinct by (class, len, cuts, erasures, perturbation).')
-    ctx.trusted = ['Coq 8.16.1 kernel; vm_compute', 'astropy isclose semantics transcribed: Time.isclose atol = 2 eps days, '
+    ctx.trusted = ['translator T12 translate/py_concat2coq.py (loop bodies and arithmetic of concatenate; other statements pinned, none left over)', 'Coq 8.16.1 kernel; vm_compute', 'astropy isclose semantics transcribed: Time.isclose atol = 2 eps days, '
                    'u.isclose rtol = 1e-5', 'harness/exact.py (TAI seconds)']
     ctx.assumptions = ['sample spacing > 38.4 ps (rates below 26 GHz)', '|cf|/bw <= 2^30']
     built = ctx.build(['Props/C10.vo'])
